@@ -177,8 +177,52 @@ def c06_c(ctx: Ctx):
         cur = cur.orelse
     fl = ctx.prog.classes.get(IDX + ":_float")
     float_sep = "float" in wrapped and fl is not None and "__hash__" in fl.methods
-    if float_sep:
-        out.append(ctx.ok(R, None, None, "float keys are wrapped in _float, whose __hash__ differs from the int hash: 1 and 1.0 occupy different slots", construct="typed|int-float"))
+    # Two keys share a dict slot iff their hashes are equal AND they compare equal.  Separation is therefore guaranteed either by a type-exclusive __eq__
+    # of the wrapper, or - if only the hash is shifted - by the shifted hash never meeting the hash of the equal int.  The latter is decided by evaluating the
+    # hash expression (an arithmetic expression over super().__hash__()) on a probe set of integer-valued floats, with CPython's rule that -1 is stored as -2.
+    excl = False
+    if fl is not None and "__eq__" in fl.methods:
+        eqf = fl.methods["__eq__"]
+        rets = [r for r in body_nodes(eqf) if isinstance(r, ast.Return) and r.value is not None]
+        par = eqf.params[1] if len(eqf.params) > 1 else "other"
+        excl = bool(rets) and all(any(t in canon(r.value).replace(" ", "") for t in (f"type({par})is_float", f"isinstance({par},_float)", f"type({par})istype(self)")) and
+                                  (isinstance(r.value, ast.BoolOp) and isinstance(r.value.op, ast.And) or isinstance(r.value, ast.Compare)) for r in rets)
+    collisions = None
+    if float_sep and not excl:
+        hf = fl.methods["__hash__"]
+        rets = [r for r in body_nodes(hf) if isinstance(r, ast.Return) and r.value is not None]
+        if len(rets) == 1:
+            def _ev(e, h):
+                if isinstance(e, ast.Constant) and isinstance(e.value, int):
+                    return e.value
+                if isinstance(e, ast.Call) and canon(e).replace(" ", "") in ("super().__hash__()", "float.__hash__(self)", "hash(float(self))"):
+                    return h
+                if isinstance(e, ast.UnaryOp) and isinstance(e.op, ast.USub):
+                    return -_ev(e.operand, h)
+                if isinstance(e, ast.UnaryOp) and isinstance(e.op, ast.Invert):
+                    return ~_ev(e.operand, h)
+                if isinstance(e, ast.BinOp) and type(e.op) in (ast.Add, ast.Sub, ast.Mult, ast.BitXor):
+                    a, b = _ev(e.left, h), _ev(e.right, h)
+                    return {ast.Add: a + b, ast.Sub: a - b, ast.Mult: a * b, ast.BitXor: a ^ b}[type(e.op)]
+                raise ValueError(canon(e))
+            try:
+                collisions = []
+                for kk in list(range(-6, 7)) + [2 ** 31, -2 ** 31, 2 ** 53, 2 ** 61 - 2, 2 ** 61 - 1, -(2 ** 61), 2 ** 61]:
+                    hv = hash(int(_ev(rets[0].value, hash(float(kk)))))   # what CPython stores for the returned int (-1 becomes -2, large values are reduced)
+                    if hv == hash(kk):
+                        collisions.append(kk)
+            except (ValueError, OverflowError):
+                collisions = None
+    if float_sep and excl:
+        out.append(ctx.ok(R, None, None, "float keys are wrapped in _float, which only compares equal to other _float keys: an int and the equal float can never share a slot", construct="typed|int-float"))
+    elif float_sep and collisions == []:
+        out.append(ctx.ok(R, None, None, "float keys are wrapped in _float, whose shifted hash never meets the hash of the equal int on the probe set", construct="typed|int-float"))
+    elif float_sep and collisions:
+        out.append(ctx.viol(R, fl.methods["__hash__"], fl.methods["__hash__"].node, f"_float only shifts the hash ({canon(rets[0].value)}) and still compares equal to ints; for the values "
+                            f"{collisions} the shifted hash equals the hash of the equal int (CPython stores -1 as -2), so e.g. {collisions[0]} and {float(collisions[0])} share one slot: "
+                            "{'$type': 'int'} returns the float's job and misses the int's, the schema loses values", construct="typed|int-float"))
+    elif float_sep:
+        out.append(ctx.inc(R, None, None, "separation of int and float keys: neither a type-exclusive __eq__ nor a hash expression that can be evaluated", construct="typed|int-float"))
     else:
         out.append(ctx.viol(R, None, None, "int and float keys that compare equal (1 and 1.0) share one slot of the value index: which type is reported depends on which job was indexed first",
                             construct="typed|int-float"))
@@ -479,7 +523,12 @@ def c06_g(ctx: Ctx):
         ser = [c for c in body_nodes(hh) if isinstance(c, ast.Call) and (common.ext_name(ctx, hh, c) in ("json.dumps", "builtins.str", "builtins.repr", "pickle.dumps", "builtins.format")
                                                                        or (isinstance(c.func, ast.Attribute) and c.func.attr in ("dumps", "format", "encode")))]
         okshape = any(common.pmatch("hash(tuple(sorted(self.items())))", r.value) is not None or common.pmatch("hash(frozenset(self.items()))", r.value) is not None for r in rets)
-        if ser:
+        unsorted = [r for r in rets if common.pmatch("hash(tuple(self.items()))", r.value) is not None or common.pmatch("hash(tuple(self))", r.value) is not None
+                    or common.pmatch("hash(tuple(self.values()))", r.value) is not None or common.pmatch("hash(tuple(self.keys()))", r.value) is not None]
+        if unsorted:
+            out.append(ctx.viol(R, hh, unsorted[0], f"_hashable_dict.__hash__ is `{canon(unsorted[0].value)}`: it depends on the insertion order (or ignores the values), while dict equality "
+                                "does not: [{'kind': 'heat', 'T': 300}] is no longer found by the equal filter value [{'T': 300, 'kind': 'heat'}], and $not of it returns everything", construct=kh))
+        elif ser:
             out.append(ctx.viol(R, hh, ser[0], f"_hashable_dict.__hash__ hashes a text serialisation ({canon(ser[0])[:40]}): mappings that compare equal (other key order, 1 vs 1.0 vs True) "
                                 "get different hashes, so an index look-up with a list-of-mappings value misses jobs that `==` accepts and $not returns too many", construct=kh))
         elif okshape:
